@@ -4,6 +4,10 @@ mod api;
 mod c01;
 mod c02;
 mod c03;
+#[cfg(feature = "std")]
+mod c08;
+#[cfg(feature = "std")]
+mod c18;
 mod c09;
 mod c10;
 #[cfg(feature = "std")]
@@ -42,6 +46,10 @@ fn main() {
         "c01" => (c01::run(&args), c01::RULE),
         "c02" => (c02::run(&args), c02::RULE),
         "c03" => (c03::run(&args), c03::RULE),
+        #[cfg(feature = "std")]
+        "c08" => (c08::run(&args), c08::RULE),
+        #[cfg(feature = "std")]
+        "c18" => (c18::run(&args), c18::RULE),
         "c09" => (c09::run(&args), c09::RULE),
         "kern" => (kern::run(&args), kern::RULE),
         "probes" => (kern::probes(&args), kern::RULE),
